@@ -299,4 +299,38 @@ func init() {
 		HSpec{Pkg: swapPkg, Func: "VerifHarness_C13_CreateLocksBound", Tier: "quick", Opts: gosym.HarnessOpts{Backends: nia}, Bounds: "unbounded positive integers; sqrt by contract"},
 		HSpec{Pkg: swapPkg, Func: "VerifHarness_C13_SellWithOrders", Tier: "quick", Configs: []map[string]int64{cfg("orders", 0), cfg("orders", 1)}, Bounds: "concrete pool 10000/10000 BIP and concrete resting orders; taker amount symbolic in (0, 100000 BIP]"},
 		HSpec{Pkg: swapPkg, Func: "VerifHarness_C13_SellWithOrders", Tier: "thorough", Configs: []map[string]int64{cfg("orders", 2)}, Bounds: "as above with two order levels"})
+
+	// ---------------------------------------------------------- C23 encodings and signature gates
+	{
+		c23a := append([]string{
+			"byte layer: the real rlp.Stream (Kind/readKind/readUint/Bytes/Uint/List/ListEnd) and the real encbuf primitives (encodeString/encodeUint/list/listEnd/toBytes/putint/puthead) run over a buffer of n arbitrary bytes; the reflective struct layer on top (typeinfo, decodeBigInt's leading-zero check, struct tags) cannot be encoded (package reflect) and is outside the claim",
+			"strings of 56 bytes or more (long-form headers accepted) are outside the byte bound; the long-form rejection for short sizes is inside",
+			"signature gates: real bodies of transaction.RecoverPlain, check.recoverPlain and crypto.ValidateSignatureValues with R, S, V arbitrary non-negative integers (V < 2^500); the curve arithmetic of crypto.Ecrecover (btcec) is an arbitrary outcome, so 'the recovered sender is exactly the key that signed' is by contract of btcec, not decided here",
+			"hash coverage: rlpHash is replaced by an injective-by-construction digest of the RLP-visible content of its argument; what is decided is which fields Transaction.Hash, Check.Hash and Check.HashWithoutLock feed to it (keccak collision resistance by contract)",
+		}, commonAssumptions...)
+		ns := func(vals ...int) []map[string]int64 {
+			var out []map[string]int64
+			for _, v := range vals {
+				out = append(out, cfg("n", v))
+			}
+			return out
+		}
+		realTx := gosym.HarnessOpts{RealBodies: []string{modulePath + "/coreV2/transaction.RecoverPlain"}}
+		add("C23", c23a,
+			HSpec{Pkg: "rlp", Func: "VerifHarness_C23_StreamBytes", Tier: "quick", Configs: ns(1, 2, 3, 5, 9), Bounds: "every buffer of n bytes, n as configured (<= 9)"},
+			HSpec{Pkg: "rlp", Func: "VerifHarness_C23_StreamUint", Tier: "quick", Configs: ns(1, 2, 4, 6), Bounds: "every buffer of n bytes (<= 6)"},
+			HSpec{Pkg: "rlp", Func: "VerifHarness_C23_StreamUint", Tier: "thorough", Configs: ns(9), Bounds: "every buffer of 9 bytes (all integer widths up to uint64)"},
+			HSpec{Pkg: "rlp", Func: "VerifHarness_C23_StreamListReencode", Tier: "quick", Configs: ns(1, 3, 5), Bounds: "every buffer of n bytes (<= 5) read as a list of up to 3 strings"},
+			HSpec{Pkg: "rlp", Func: "VerifHarness_C23_StreamListReencode", Tier: "thorough", Configs: ns(7, 8), Bounds: "every buffer of 7 and 8 bytes"},
+			HSpec{Pkg: "rlp", Func: "VerifHarness_C23_EncodeDecodeUint", Tier: "quick", Configs: []map[string]int64{cfg("bits", 40)}, Bounds: "every integer below 2^40 (wider integers: decided in the decode direction by StreamUint; the encode->decode query is unknown in all back ends from 48 bits)"},
+			HSpec{Pkg: txPkg, Func: "VerifHarness_C23_RecoverGates", Tier: "quick", Opts: realTx, Bounds: "R, S unbounded non-negative, V < 2^500"},
+			HSpec{Pkg: txPkg, Func: "VerifHarness_C23_HashCoversFields", Tier: "quick", Bounds: "one changed field at a time, numeric deltas 1..200 symbolic"},
+			HSpec{Pkg: "coreV2/check", Func: "VerifHarness_C23_CheckRecoverGates", Tier: "quick", Bounds: "R, S unbounded non-negative, V < 2^500"},
+			HSpec{Pkg: "coreV2/check", Func: "VerifHarness_C23_CheckHashCoversFields", Tier: "quick", Bounds: "one changed field at a time"})
+		add("C07", c23a[:2],
+			HSpec{Pkg: "rlp", Func: "VerifHarness_C07_StreamList", Tier: "quick", Configs: ns(1, 2, 4, 6), Bounds: "every buffer of n bytes (<= 6): list header, two strings, list end; no panic"},
+			HSpec{Pkg: "rlp", Func: "VerifHarness_C07_StreamList", Tier: "thorough", Configs: ns(9), Bounds: "every buffer of 9 bytes"},
+			HSpec{Pkg: "rlp", Func: "VerifHarness_C23_StreamBytes", Tier: "quick", Configs: ns(3, 9), Bounds: "every buffer of n bytes; no panic"},
+			HSpec{Pkg: "rlp", Func: "VerifHarness_C23_StreamUint", Tier: "quick", Configs: ns(4, 6), Bounds: "every buffer of n bytes; no panic"})
+	}
 }
